@@ -7,4 +7,5 @@ CONSTANTS
   DEPTH = 2
   BITS = {0}
   GEN = FALSE
+  VARIANTS = {0, 1}
 INVARIANTS Sound OnlyAuthentic AuthenticOk PrefixClosed
